@@ -665,9 +665,17 @@ func (b *Buffer) write(call goja.FunctionCall) goja.Value {
 	codec := b.getStringCodec(call.Argument(3))
 
 	raw := codec.DecodeAppend(str, nil)
-	if int64(len(raw)) < length {
+	if length > maxLength {
+		length = maxLength
+	}
+	if int64(len(raw)) <= length {
 		// make sure we only write up to raw bytes
 		length = int64(len(raw))
+	} else if codec == utf8Codec {
+		// only whole characters: do not cut a multi-byte sequence in the middle
+		for length > 0 && raw[length]&0xC0 == 0x80 {
+			length--
+		}
 	}
 	n := copy(bb[offset:], raw[:length])
 	return b.r.ToValue(n)
